@@ -76,6 +76,17 @@ def cases(rng, tier):
     for k, isi in pts:
         data = CG.rand_data(rng, k)
         cases.relation.append((k, isi, data))
+    # the largest block sizes (release profile): rows of Table 2 with S >= 2P (the G_LDPC,2 column pattern wraps
+    # more than once there), the last row, and a random large row; the real intermediate symbols must satisfy the
+    # RFC's LDPC + LT relations (O(L) check with the RFC snapshot's parameters) and repair packets the Enc relation
+    rows = C.repo_table2()[0]
+    wrap = [r[0] for r in rows if r[2] >= 2 * (r[0] + r[2] + r[3] - r[4])]
+    big = [rng.choice(wrap)] if wrap else []
+    big += [rows[-1][0]] if tier != "quick" else [rng.choice([r[0] for r in rows if 3000 < r[0] < 12000])]
+    if tier != "quick":
+        big += wrap[:2] + [rng.choice([r[0] for r in rows if r[0] > 3000]) for _ in range(4)]
+    cases.bigrel = [(k - rng.choice([0, 0, 1, 3]), CG.rand_data(rng, k)) for k in big]
+    cases.bigrel = [(k, d[:k]) for k, d in cases.bigrel]
     return cs
 
 
@@ -137,8 +148,24 @@ def evaluate(cs, rep, tier):
             if want.split()[1:] != gotp[3:]:
                 counter.append({"input": f"repair_window {k} 1 1 1 1 0 {esi - k} 1 <{k} data bytes>", "expected": "Enc[K', C, Tuple[K', %d]] = %s" % (isi, want), "observed": " ".join(gotp[1:]), "profile": prof, "oracle": "RFC tuple and Enc on the real intermediate symbols"})
                 break
+    bigrel = getattr(cases, "bigrel", [])
+    for k, data in bigrel:
+        esi = k + 5
+        ci, pi = C.run_impl_crashsafe([C.Case("intermediate", [1, 0, 0] + data), C.Case("repair_window", [k, 1, 1, 1, 1, 0, esi - k, 1] + data)], "release", chunk=1, timeout=900)
+        inp = f"repair_window {k} 1 1 1 1 0 {esi - k} 1 <{k} data bytes>"
+        if not ci.startswith("1") or not pi.startswith("1"):
+            counter.append({"input": inp, "expected": "an encoder and a repair packet for every K <= 56403", "observed": (ci[:40] + " / " + pi[:40]), "profile": "release", "oracle": "C04 (large block)"})
+            continue
+        cvals = [int(x) for x in ci.split()[1:]]
+        ans = C.run_model([C.Case("spec_check_rows_rfc", [k, 1] + data + cvals)], timeout=3600)[0]
+        if ans != "1 1":
+            counter.append({"input": inp, "expected": "intermediate symbols satisfying the RFC's LDPC relations and reproducing every source / padding symbol through Enc", "observed": "violated on the real intermediate symbols", "profile": "release", "oracle": "RFC relations with the parameters of the RFC snapshot"})
+            continue
+        want = C.run_model([C.Case("spec_enc_from_c", [k, 1, esi] + cvals)], timeout=3600)[0]
+        if want.split()[1:] != pi.split()[3:]:
+            counter.append({"input": inp, "expected": "Enc[K', C, Tuple[K', ISI]] = " + want[:60], "observed": " ".join(pi.split()[1:8]), "profile": "release", "oracle": "RFC tuple and Enc on the real intermediate symbols"})
     return {"disagreements": dis, "counterexamples": counter,
-            "stats": {"evaluations": len(cs) * 4 + len(sc), "packet_relation_points": len(rel), "distinct_nontrivial": len(set(c.key() for c in cs if c.tag in ("first", "window"))),
+            "stats": {"evaluations": len(cs) * 4 + len(sc), "packet_relation_points": len(rel), "large_blocks_checked_by_rfc_relations": [k for k, _ in bigrel], "distinct_nontrivial": len(set(c.key() for c in cs if c.tag in ("first", "window"))),
                       "repair_packets_vs_spec": nrep,
                       "samples": [cs[min(9, len(cs) - 1)].impl_line()[:160] + " ... -> " + impl[min(9, len(cs) - 1)][:80]],
                       "input_distribution": {"K_values": len(set(c.args[0] // c.args[1] for c in cs if c.tag == "first")), "windows": sum(1 for c in cs if c.tag == "window"), "multi_block_objects": sum(1 for c in cs if c.tag == "multi")}}}
